@@ -43,6 +43,8 @@ def gen(rng, tier, no, wide=False):
     if rng.random() < 0.1:
         force.update({"nranks": rng.choice([2, 3]), "filler": -90})       # many rank-specific names: global symbol ids beyond 127
     case = C.gen_with(rng, C.every_rank_has_device, **force)
+    if rng.random() < 0.03 and "filler" not in force:
+        case = C.many_ranks(rng, case)
     case["params"] = {"num_kernels": rng.choice([1, 1, 2, 2, 3, 4, 5, 8, 12]),
                       "duration_ratio": rng.choice([0.01, 0.2, 0.5, 0.8, 0.8, 0.9, 0.99, 1.0]),
                       "include_memory": rng.random() < 0.5}
